@@ -1067,8 +1067,8 @@ class Filterbank(ABC):
         gulp = max(2 * max_delay, gulp)
         # must be memset to zero in c code
         out_ar = np.empty((gulp - max_delay) * nsub, dtype="float32")
-        new_foff = self.header.foff * self.header.nchans // nsub
-        new_fch1 = self.header.ftop - new_foff / 2
+        new_foff = self.header.foff * subfactor
+        new_fch1 = self.header.ftop + new_foff / 2
         chan_to_sub = np.arange(self.header.nchans, dtype="int32") // subfactor
         updates = {
             "fch1": new_fch1,
